@@ -352,6 +352,50 @@ class Machinery(Exception):
     pass
 
 
+SUITE_STAGE = {'C01', 'C02', 'C03', 'C04', 'C05', 'C06', 'C13'}
+SUITE_QUICK = {'C02', 'C03', 'C05'}
+
+
+def run_suite_stage(prop, tier):
+    """The repository's own test-suite and documentation examples, run under the trace hook; every
+    Interpreter they create is one recorded run evaluated by TLC (opaque mode)."""
+    import repo_traces
+    t0 = time.time()
+    name = '%s_suite' % prop
+    try:
+        charts, traces, st = repo_traces.collect(name)
+    except Exception as e:
+        raise Machinery('recording the repository test-suite failed: %s' % e)
+    if not traces:
+        raise Machinery('the repository test-suite produced no usable trace')
+    reports, ts = engine.trace_check(name, charts, traces)
+    if ts['errors']:
+        raise Machinery('TLC failed on the suite traces:\n' + str(ts['errors'][0]))
+    alluids = {u for t in traces for u in t['uids']}
+    if any(u not in reports for u in alluids):
+        raise Machinery('suite traces: some recorded lines got no verdict')
+    viol, cross, seen = [], Counter(), set()
+    for t in traces:
+        for ln, u in enumerate(t['uids']):
+            if u in seen:
+                continue
+            seen.add(u)
+            r = reports[u]
+            mine = [[ln + 1, b[0], b[1]] for b in r['bad'] if b[0] == prop]
+            for b in r['bad']:
+                if b[0] != prop:
+                    cross['%s.%s' % (b[0], b[1])] += 1
+            if mine:
+                viol.append((dict(t, hist=t['hist'][:ln + 1], lines=t['lines'][:ln + 1]), mine, r))
+    out = dict(stage='repository-suite', charts=len(charts), mc_states=0, mc_transitions=0, traces=len(traces),
+               edge_traces=0, random_traces=len(traces), lines_evaluated=len(alluids), cross_failures=dict(cross),
+               divergences=0, model_violations=0, mc_completed=True, wall_s=round(time.time() - t0, 2),
+               trace_cmd=ts['cmd'], **st)
+    sample = [{'chart': charts[traces[0]['ci'] - 1], 'source': 'repository test-suite under SISMIC_VERIF_TRACE',
+               'observed_last_line': traces[0]['lines'][-1]}]
+    return out, viol, charts, sample
+
+
 def run_stage(prop, tier, seed, stage, rng):
     name = '%s_%s' % (prop, stage['name'])
     charts = stage['charts']
@@ -492,6 +536,18 @@ def main(prop, tier, seed, replay_path=None):
             if out['model_violations'] and not viol:
                 raise Machinery('the operational model violates %s on an input the real code handles '
                                 'correctly: the model misrepresents the code (see %s)' % (prop, mc['dir']))
+        if prop in SUITE_STAGE and (tier == THOROUGH or prop in SUITE_QUICK):
+            out, viol, allcharts, samples = run_suite_stage(prop, tier)
+            cov['stages'].append(out)
+            cov['traces_validated_against_impl'] += out['traces']
+            cov['samples'] += samples
+            for (t, mine, r) in viol:
+                nviol += 1
+                if nviol <= 5:
+                    path = evd.write_replay(prop, nviol, {'property': prop, 'chart': allcharts[t['ci'] - 1], 'hist': t['hist'],
+                                                          'kw': t['kw'], 'failing': mine, 'lines': t['lines']})
+                    lines_out.append('VIOLATION property=%s replay=%s' % (prop, path))
+                    lines_out.append('  clauses=%s (recorded run of the repository test-suite)' % sorted({b[2] for b in mine}))
     except Machinery as e:
         print('MACHINERY-FAILURE property=%s: %s' % (prop, e))
         cov['machinery_failure'] = str(e)
